@@ -294,3 +294,53 @@ def check_measured(rep, ctx, rule, key, anchor_body, ctx_adt, variant, param_idx
              "derived objects): a request just beyond the limit can slip through" % (variant, short(anchor_body.id), what, len(sites))),
             anchor_body.span)
     return g
+
+
+# ---------------------------------------------------------------------------------------------------------
+# R5p: an admission over a caller-supplied list must not look at one position of the *unsorted* list
+POSITIONAL = ("last", "first", "split_last", "split_first", "last_mut", "first_mut")
+ALIAS_NAMES = ("iter", "as_ref", "deref", "borrow", "as_slice", "unwrap", "expect", "branch", "as_deref", "by_ref")
+
+
+def positional_selections(g, start):
+    """calls of first()/last()/.. on an alias of the parameter itself (a sorted / de-duplicated copy made with
+    to_vec() or clone() is a different value and not followed)."""
+    f = g.facts
+    seen = {start}
+    dq = deque([start])
+    hits = []
+    while dq:
+        n = dq.popleft()
+        for e in g.fwd.get(n, ()):
+            if e.kind != DATA or e.dst == OUTCOME:
+                continue
+            if not (isinstance(e.dst, tuple) and len(e.dst) == 2 and isinstance(e.dst[1], int) and e.dst[1] >= 0):
+                continue
+            nm = LG._callee_name(g, e) if e.op == "foreign" else None
+            if nm in POSITIONAL and LG._is_result_edge(g, e):
+                hits.append((e.site, e.dst))
+                continue
+            ok = e.op in (MOVE, "hof", "field") or (e.op == "foreign" and LG._is_result_edge(g, e) and nm in ALIAS_NAMES)
+            if ok and e.dst not in seen:
+                seen.add(e.dst)
+                dq.append(e.dst)
+    return hits
+
+
+def check_not_positional(rep, ctx, rule, key, anchor_body, ctx_adt, param_idx, what):
+    from ..flow import Graph
+    f = ctx.facts
+    g = Graph(f, f.closure([anchor_body.id], ctx_adt), [anchor_body.id], ctx_adt)
+    hits = positional_selections(g, (anchor_body.id, param_idx))
+    conds = {c for (_, _, c) in LG.branch_conditions(g)}
+    bad = []
+    for site, dst in hits:
+        derived = LG.data_closure(g, {dst}, limit=300)
+        if derived & conds:
+            bad.append(site)
+    rep.add(rule, "%s:no-positional-admission:%s" % (key, what), not bad,
+            ("no admission decision is taken from a single position of the caller's %s" % what) if not bad else
+            ("a refusal condition is computed from first()/last() of the caller's own %s (at %s): the list is not "
+             "required to be sorted, so an out-of-range element elsewhere in it is not refused" % (what, where_of(f, *bad[0]))),
+            where_of(f, *bad[0]) if bad else anchor_body.span)
+    return g
